@@ -9,7 +9,7 @@
 (*   writer side  (what is consumed)                                       *)
 (*     SiteConsume  write_absolute_relocation /                            *)
 (*                  write_address_relocation  libwild/src/elf_writer.rs    *)
-(*     ResConsume   process_resolution (+ process_got_tls_*)               *)
+(*     ResConsume   process_resolution (and process_got_tls_ helpers)  *)
 (*                                                                         *)
 (* Parts: got, plt_got, rela_plt, rela_general, rela_relative, relr        *)
 (* (counted in entries).  Property: for every case the two sides agree per *)
